@@ -1,9 +1,9 @@
 package main
 
 import (
-	"strconv"
 	"go/token"
 	"go/types"
+	"strconv"
 	"strings"
 
 	"golang.org/x/tools/go/ssa"
